@@ -46,9 +46,11 @@ type botSess struct {
 	closed   bool
 	sent     []string
 	game     *bot.Game
-	cur      *aiCall // the thinker inside GetMove (moveLock admits one)
-	entered  int     // GetMove calls that were gated
-	drained  int     // GetMove calls that found their context cancelled on entry
+	cur      *aiCall   // the thinker inside GetMove (moveLock admits one)
+	gated    []*aiCall // all thinkers inside GetMove; more than one = moveLock does not serialise them
+	lockBad  bool
+	entered  int // GetMove calls that were gated
+	drained  int // GetMove calls that found their context cancelled on entry
 	accept   bool
 	accCalls int
 	chats    int
@@ -124,13 +126,24 @@ func (b gatedBot) GetMove(ctx context.Context, p *tak.Position, mine, theirs tim
 	}
 	c := &aiCall{p: p, mine: mine, theirs: theirs, ctx: ctx, gate: make(chan tak.Move)}
 	s.mu.Lock()
-	s.cur = c
+	s.gated = append(s.gated, c)
+	s.cur = s.gated[0]
+	if len(s.gated) > 1 {
+		s.lockBad = true
+	}
 	s.entered++
 	s.mu.Unlock()
 	mv := <-c.gate
 	s.mu.Lock()
-	if s.cur == c {
-		s.cur = nil
+	for i, x := range s.gated {
+		if x == c {
+			s.gated = append(s.gated[:i:i], s.gated[i+1:]...)
+			break
+		}
+	}
+	s.cur = nil
+	if len(s.gated) > 0 {
+		s.cur = s.gated[0]
 	}
 	s.mu.Unlock()
 	return mv
@@ -209,7 +222,7 @@ func (s *botSess) settleN() (bool, int) {
 			return true, live
 		}
 		if i == 50 {
-			deadline = time.Now().Add(10 * time.Second)
+			deadline = time.Now().Add(60 * time.Second)
 		}
 		if i > 50 && time.Now().After(deadline) {
 			s.hung = true
@@ -278,7 +291,7 @@ func (s *botSess) shutdown() {
 		s.closed = true
 		close(s.lines)
 	}
-	for i := 0; i < 10000; i++ {
+	for i := 0; i < 1000; i++ {
 		ok, live := s.settleN()
 		s.mu.Lock()
 		c := s.cur
@@ -325,6 +338,9 @@ func (s *botSess) over() bool {
 func (s *botSess) status() string {
 	if s.hung {
 		return "hang"
+	}
+	if s.lockBad {
+		return "two-thinkers-in-GetMove"
 	}
 	if !s.over() {
 		return "run"
@@ -476,7 +492,7 @@ func init() {
 				r = "gone"
 				break
 			}
-			t := time.NewTimer(10 * time.Second)
+			t := time.NewTimer(60 * time.Second)
 			select {
 			case b.lines <- line:
 				r = "ok"
